@@ -390,8 +390,8 @@ impl Execute for ast::Pipeline {
             wait_for_pipeline_processes_and_update_status(self, spawn_results, shell, &params)
                 .await?;
 
-        // Invert the exit code if requested.
-        if self.bang {
+        // Invert the exit code if requested; a `return` or `exit` hands its status on as is.
+        if self.bang && !result.is_return_or_exit() {
             result.exit_code = ExecutionExitCode::from(if result.is_success() { 1 } else { 0 });
         }
 
